@@ -10,10 +10,8 @@ package main
 import (
 	"crypto/ecdsa"
 	"fmt"
-	"io"
 	"math/big"
 	"os"
-	"os/exec"
 	"sort"
 	"strings"
 	"sync"
@@ -564,87 +562,9 @@ func boundaries(b []byte, from int) []int {
 
 var _ = ecdsa.PrivateKey{}
 
-// supervise runs the whole check in a child process. A restarted node whose background goroutines (tx pool reorg
-// loop, block-chain routines ...) panic takes the process down: in production that is the node dying after a
-// restart, here it would take the checker with it. The supervisor turns such a death into a reported violation
-// (R1: the node does not come back) when the panicking goroutine is inside go-kardia code, and into a machinery
-// error otherwise.
-func supervise() {
-	cmd := exec.Command(os.Args[0], os.Args[1:]...)
-	cmd.Env = append(os.Environ(), "VERIF_C05_CHILD=1")
-	cmd.Stdout = os.Stdout
-	var tail tailBuf
-	cmd.Stderr = io.MultiWriter(os.Stderr, &tail)
-	err := cmd.Run()
-	code := 0
-	if err != nil {
-		code = 2
-		if ee, ok := err.(*exec.ExitError); ok {
-			code = ee.ExitCode()
-		}
-	}
-	txt := string(tail.b)
-	crashed := strings.Contains(txt, "\npanic: ") || strings.HasPrefix(txt, "panic: ") || strings.Contains(txt, "fatal error: ")
-	if !crashed {
-		os.Exit(code)
-	}
-	// the panicking goroutine: the first "goroutine N [running]:" block
-	at, inRepo := "unknown", false
-	if i := strings.Index(txt, "[running]:"); i >= 0 {
-		lines := strings.Split(txt[i:], "\n")
-		for _, l := range lines[1:] {
-			l = strings.TrimSpace(l)
-			if l == "" {
-				break
-			}
-			if strings.HasPrefix(l, "/") || strings.HasPrefix(l, "panic(") || strings.HasPrefix(l, "runtime.") || strings.HasPrefix(l, "created by") {
-				continue
-			}
-			fn := l
-			if k := strings.LastIndex(fn, "("); k > 0 {
-				fn = fn[:k]
-			}
-			if at == "unknown" {
-				at = strings.TrimPrefix(fn, "github.com/kardiachain/go-kardia/")
-				inRepo = strings.HasPrefix(fn, "github.com/kardiachain/go-kardia/") && !strings.Contains(fn, ".Verif") && !strings.Contains(fn, ".verif")
-			}
-		}
-	}
-	what := "panic"
-	if i := strings.Index(txt, "panic: "); i >= 0 {
-		what = txt[i:]
-		if k := strings.IndexByte(what, '\n'); k > 0 {
-			what = what[:k]
-		}
-	}
-	if !inRepo {
-		fmt.Printf("MACHINERY-ERROR property=C05 the evaluating process died outside go-kardia code (%s at %s)\n", what, at)
-		os.Exit(2)
-	}
-	r = report.New("C05", "fault_enumeration")
-	r.Set("rule", "the evaluating process died: only the death itself is reported")
-	r.NotExhaustive("the process that records the lives and evaluates the restarts died with an unrecovered panic in a go-kardia goroutine")
-	r.Violation("C05|oracle=R1:node-process-dies|at="+at, "a goroutine of the node dies with an unrecovered "+what+" at "+at+
-		" while lives are recorded / restarted nodes run: the process of a node in that situation ends (it does not come back without manual repair)",
-		map[string]interface{}{"kind": "process-death", "panic": what, "at": at})
-	r.Finish()
-}
-
-type tailBuf struct{ b []byte }
-
-func (t *tailBuf) Write(p []byte) (int, error) {
-	t.b = append(t.b, p...)
-	if len(t.b) > 1<<18 {
-		// keep the beginning (the panicking goroutine is printed first)
-		t.b = t.b[:1<<18]
-	}
-	return len(p), nil
-}
-
 func main() {
-	if os.Getenv("VERIF_C05_CHILD") == "" {
-		supervise()
-	}
+	report.Supervise("C05", "fault_enumeration", "R1:node-process-dies",
+		"while lives are recorded / restarted nodes run: the process of a node in that situation ends (it does not come back without manual repair)")
 	r = report.New("C05", "fault_enumeration")
 	modes := []string{"flush", "keep"}
 	wls := []string{"W2"}
